@@ -1,1 +1,2 @@
-import CG
+import CG.Proofs.Basics
+#print axioms CG.failed_stepRef_unchanged
